@@ -132,7 +132,7 @@ func (s *sched) block(ready func() bool, desc string) {
 			s.failFrom(g, pathAbort{"violation", "deadlock: " + d})
 		}
 		s.points++
-		idx := ctx.choose(len(cands))
+		idx := s.pick(len(cands))
 		s.switchTo(g, cands[idx])
 		g.ready = nil
 	}
@@ -162,7 +162,6 @@ func (s *sched) yield() {
 // of goroutines (other than the caller) that are still alive (parked).
 func (s *sched) quiesce() int {
 	g := s.cur
-	ctx := s.i.ctx
 	// plain reports whether a non-quiescing goroutine other than x can run.
 	plain := func(x *gor) bool {
 		for _, h := range s.gs {
@@ -208,7 +207,7 @@ func (s *sched) quiesce() int {
 			}
 		}
 		s.points++
-		idx := ctx.choose(len(cands))
+		idx := s.pick(len(cands))
 		g.quiescing = true
 		g.ready = func() bool { return !others() }
 		g.desc = "quiesce"
@@ -253,7 +252,7 @@ func (s *sched) spawn(fn value, args []value, name string) {
 			return
 		}
 		idx := 0
-		if pa := s.runG(func() { s.points++; idx = s.i.ctx.choose(len(cands)) }); pa != nil {
+		if pa := s.runG(func() { s.points++; idx = s.pick(len(cands)) }); pa != nil {
 			s.endFrom(*pa)
 			return
 		}
@@ -441,7 +440,7 @@ func (s *sched) doSelect(cases []selCase, blocking bool) (int, value, bool) {
 			}
 		}
 		if len(rdy) > 0 {
-			k := rdy[s.i.ctx.choose(len(rdy))]
+			k := rdy[s.pick(len(rdy))]
 			c := cases[k]
 			if c.send {
 				if c.ch.closed {
@@ -471,4 +470,16 @@ func (s *sched) doSelect(cases []selCase, blocking bool) (int, value, bool) {
 			return false
 		}, "select")
 	}
+}
+
+// pick resolves a scheduling choice: every alternative is explored unless the
+// bounds ask for the deterministic schedule (first candidate).
+func (s *sched) pick(n int) int {
+	if n <= 1 {
+		return 0
+	}
+	if s.i.ctx.ex.Bounds.FixedSchedule || s.i.ctx.fixedSched {
+		return 0
+	}
+	return s.i.ctx.choose(n)
 }
